@@ -574,13 +574,16 @@ theorem query_strand_invariant (W k0 : Nat) (sparse : Bool) (h1 : 1 ≤ effK k0 
   refine ⟨m, hm, fun j => ?_⟩
   rw [kmQuery_fresh m refs _ rank qid hq hinj, kmQuery_fresh m refs _ rank qid hq hinj, shared_perm m refs q (rcSeq q) j hperm]
 
-/-- test (sample input): references "acgtacgt", "acgtgg", query "acgt", k = 4 dense on 128-bit words: the query
-k-mer acgt occurs twice in reference 0 and once in reference 1: reported 3 and 2; the hypotheses of `query_exact`
-hold with the identity as rank -/
-example : (match newKmerMap 128 4 false with
-    | .ok m => kmQuery m (newIndex m (-1) [[97, 99, 103, 116, 97, 99, 103, 116], [97, 99, 103, 116, 103, 103]]) id 2
-        [97, 99, 103, 116]
-    | .error _ => []) = [(0, 3), (1, 2)] := by decide
-
+/-- non-vacuity of `query_exact` (sample input): references "acgtacgt", "acgtgg", query "acgt", k = 4 dense on
+128-bit words, identity as rank: the query k-mer acgt occurs twice in reference 0 and once in reference 1: 3 and
+2 are reported -/
+example : ∃ m, newKmerMap 128 4 false = .ok m ∧
+    (kmQuery m (newIndex m (-1) [[97, 99, 103, 116, 97, 99, 103, 116], [97, 99, 103, 116, 103, 103]]) id 2
+        [97, 99, 103, 116]).lookup 0 = some 3 ∧
+    (kmQuery m (newIndex m (-1) [[97, 99, 103, 116, 97, 99, 103, 116], [97, 99, 103, 116, 103, 103]]) id 2
+        [97, 99, 103, 116]).lookup 1 = some 2 := by
+  refine ⟨_, rfl, ?_, ?_⟩
+  · rw [query_exact _ _ _ id 2 (by decide) (fun a b _ _ h => h)]; decide
+  · rw [query_exact _ _ _ id 2 (by decide) (fun a b _ _ h => h)]; decide
 
 end ObiVerif.Props.C19
